@@ -24,6 +24,8 @@ class Engine:
     sink = None          # callable(cond: z3 Bool, what: str) or None
     axioms = []          # global facts (true in every state)
     guards = []          # conditions under which the code being evaluated is reached
+    oracle = None        # callable(cond term, guards) -> True/False/None, installed by the executor
+    var_bounds = {}      # term id of an input variable -> (lo, hi) assumed at its creation on every path
     concrete = False     # judging a concrete run: bounded quantifiers are expanded, not handed to z3
     size_hints = []      # callables bound -> z3 Bool: 'every input size <= bound' (to get small counter-models)
     _n = 0
@@ -36,6 +38,11 @@ class Engine:
         cls.guards = []
         cls.size_hints = []
         cls.concrete = False
+        cls.var_bounds = {}
+        cls.oracle = None
+        _KNOWN.clear()
+        _BND.clear()
+        del _BND_KEEP[:]
         cls._n = 0
 
     @classmethod
@@ -253,6 +260,75 @@ def _cval(t):
     return None
 
 
+_FULL = (-(1 << (WIDTH - 1)), (1 << (WIDTH - 1)) - 1)
+_BND = {}
+
+
+def bounds(t):
+    """Sound interval (lo, hi) of the signed value of a 32-bit term, by structural interval arithmetic.
+    Used only to SKIP no-wrap side conditions that are trivially true; anything unknown is the full range."""
+    key = t.get_id()
+    r = _BND.get(key)
+    if r is not None:
+        return r
+    r = _bounds(t)
+    if r[0] < _FULL[0] or r[1] > _FULL[1]:
+        r = _FULL
+    if len(_BND) < 400000:
+        _BND[key] = r
+        _BND_KEEP.append(t)
+    return r
+
+
+_BND_KEEP = []
+
+
+def _bounds(t):
+    if z3.is_bv_value(t):
+        v = t.as_signed_long()
+        return (v, v)
+    if not z3.is_app(t) or t.size() != WIDTH:
+        return _FULL
+    k = t.decl().kind()
+    n = t.num_args()
+    if n == 0:
+        return E.var_bounds.get(t.get_id(), _FULL)
+    if k == z3.Z3_OP_ZERO_EXT:
+        return (0, (1 << t.arg(0).size()) - 1)
+    ar = [bounds(t.arg(i)) for i in range(n)] if k != z3.Z3_OP_ITE else None
+    if k == z3.Z3_OP_ITE:
+        a, b = bounds(t.arg(1)), bounds(t.arg(2))
+        return (min(a[0], b[0]), max(a[1], b[1]))
+    if k == z3.Z3_OP_BADD:
+        return (sum(x[0] for x in ar), sum(x[1] for x in ar))
+    if k == z3.Z3_OP_BSUB and n == 2:
+        return (ar[0][0] - ar[1][1], ar[0][1] - ar[1][0])
+    if k == z3.Z3_OP_BMUL and n == 2:
+        c = [x * y for x in ar[0] for y in ar[1]]
+        return (min(c), max(c))
+    if k == z3.Z3_OP_BAND:
+        nn = [x[1] for x in ar if x[0] >= 0]
+        return (0, min(nn)) if nn else _FULL
+    if k in (z3.Z3_OP_BOR, z3.Z3_OP_BXOR):
+        if all(x[0] >= 0 for x in ar):
+            return (0, (1 << max(x[1] for x in ar).bit_length()) - 1)
+        return _FULL
+    if k in (z3.Z3_OP_BASHR, z3.Z3_OP_BSHL) and z3.is_bv_value(t.arg(1)):
+        c = t.arg(1).as_long()
+        if c >= WIDTH:
+            return _FULL
+        if k == z3.Z3_OP_BASHR:
+            return (ar[0][0] >> c, ar[0][1] >> c)
+        return (ar[0][0] << c, ar[0][1] << c)
+    if k == z3.Z3_OP_BSMOD and z3.is_bv_value(t.arg(1)) and t.arg(1).as_signed_long() > 0:
+        return (0, t.arg(1).as_signed_long() - 1)
+    return _FULL
+
+
+def _fits(lo, hi):
+    return _FULL[0] <= lo and hi <= _FULL[1]
+
+
 def _arith(op, a, b):
     ca, cb = _cval(a), _cval(b)
     if ca is not None and cb is not None:
@@ -298,13 +374,20 @@ def _arith(op, a, b):
         raise SymErr('lia: operator %s needs ints="bv"' % op)
     # ---- bit-vector mode, exact under the registered no-wrap conditions
     if op == 'add':
-        E.side(z3.And(z3.BVAddNoOverflow(a, b, True), z3.BVAddNoUnderflow(a, b)), 'bv-nowrap add')
+        x, y = bounds(a), bounds(b)
+        if not _fits(x[0] + y[0], x[1] + y[1]):
+            E.side(z3.And(z3.BVAddNoOverflow(a, b, True), z3.BVAddNoUnderflow(a, b)), 'bv-nowrap add')
         return a + b
     if op == 'sub':
-        E.side(z3.And(z3.BVSubNoOverflow(a, b), z3.BVSubNoUnderflow(a, b, True)), 'bv-nowrap sub')
+        x, y = bounds(a), bounds(b)
+        if not _fits(x[0] - y[1], x[1] - y[0]):
+            E.side(z3.And(z3.BVSubNoOverflow(a, b), z3.BVSubNoUnderflow(a, b, True)), 'bv-nowrap sub')
         return a - b
     if op == 'mul':
-        E.side(z3.And(z3.BVMulNoOverflow(a, b, True), z3.BVMulNoUnderflow(a, b)), 'bv-nowrap mul')
+        x, y = bounds(a), bounds(b)
+        c = [p * q for p in x for q in y]
+        if not _fits(min(c), max(c)):
+            E.side(z3.And(z3.BVMulNoOverflow(a, b, True), z3.BVMulNoUnderflow(a, b)), 'bv-nowrap mul')
         return a * b
     if op == 'div':
         if cb is None or cb == 0:
@@ -325,11 +408,16 @@ def _arith(op, a, b):
     if op == 'or': return a | b
     if op == 'xor': return a ^ b
     if op == 'shl':
-        E.side(z3.And(b >= 0, b < WIDTH), 'bv shift amount in range')
+        if cb is None or not 0 <= cb < WIDTH:
+            E.side(z3.And(b >= 0, b < WIDTH), 'bv shift amount in range')
         r = a << b
-        E.side((r >> b) == a, 'bv-nowrap shl')
+        x = bounds(a)
+        if cb is None or not 0 <= cb < WIDTH or not _fits(x[0] << cb, x[1] << cb):
+            E.side((r >> b) == a, 'bv-nowrap shl')
         return r
     if op == 'shr':
+        if cb is not None and 0 <= cb < WIDTH:
+            return a >> b
         E.side(b >= 0, 'negative shift count')
         return z3.If(b >= WIDTH, z3.If(a < 0, iconst(-1), iconst(0)), a >> b)
     raise SymErr('operator %s' % op)
@@ -350,13 +438,14 @@ def _floordiv_lia(a, b):
 
 class SSeq:
     """Immutable functional sequence.  kind: 'bytes' | 'list' | 'str' | 'tuple'."""
-    __slots__ = ('n', 'get', 'kind', 'arr')
+    __slots__ = ('n', 'get', 'kind', 'arr', 'parts')
 
-    def __init__(self, n, get, kind='bytes', arr=None):
+    def __init__(self, n, get, kind='bytes', arr=None, parts=None):
         self.n = n if isinstance(n, (SInt, int)) else SInt(n)
         self.get = get
         self.kind = kind
         self.arr = arr          # z3 array term when this is a base (input) sequence: fast model read-out
+        self.parts = parts      # (left, right) when this is a concatenation: lets equalities be split
 
     def __repr__(self):
         return 'SSeq<%s,len=%r>' % (self.kind, self.n)
@@ -418,7 +507,7 @@ class SSeq:
     def __add__(self, o):
         o = SSeq.of(o)
         a, b, n = self.get, o.get, self.n
-        return SSeq(self.n + o.n, lambda k: vite(k < n, lambda: a(k), lambda: b(k - n)), self.kind)
+        return SSeq(self.n + o.n, lambda k: vite(k < n, lambda: a(k), lambda: b(k - n)), self.kind, None, (self, o))
 
     def __radd__(self, o):
         return SSeq.of(o).__add__(self)
@@ -436,7 +525,7 @@ class SSeq:
         return self.slice(0, lo) + src + self.slice(hi, self.n)
 
     def with_kind(self, kind):
-        return SSeq(self.n, self.get, kind, self.arr)
+        return SSeq(self.n, self.get, kind, self.arr, self.parts)
 
 
 def _table_get(items):
@@ -479,13 +568,42 @@ def ite(c, a, b):
     c = tobool(c)
     if isinstance(a, (SBool, bool)) and isinstance(b, (SBool, bool)):
         return SBool(z3.If(c, tobool(a), tobool(b)))
-    if a is b:
+    if a is b or (isinstance(a, int) and isinstance(b, int) and not isinstance(a, bool) and not isinstance(b, bool) and a == b):
         return a
     return SInt(z3.If(c, toint(a), toint(b)))
 
 
+_KNOWN = {}
+
+
+def known(c):
+    """True / False when the condition is decided (syntactically, or by the oracle under the current path
+    condition and guards), else None.  Only used to avoid BUILDING unreachable branches: purely an optimisation,
+    the oracle answers only what the solver proves."""
+    if isinstance(c, bool):
+        return c
+    t = z3.simplify(tobool(c))
+    if z3.is_true(t):
+        return True
+    if z3.is_false(t):
+        return False
+    if E.oracle is None:
+        return None
+    key = (t.get_id(), tuple(g.get_id() for g in E.guards), id(E.oracle))
+    if key in _KNOWN:
+        return _KNOWN[key][0]
+    r = E.oracle(t, E.guards)
+    if len(_KNOWN) < 200000:
+        _KNOWN[key] = (r, t)
+    return r
+
+
 def vite(c, fa, fb):
     """Lazy if-then-else over arbitrary values (thunks)."""
+    if not isinstance(c, bool) and E.oracle is not None:
+        d = known(c)
+        if d is not None:
+            c = d
     if isinstance(c, bool):
         return fa() if c else fb()
     with guarded(c):
@@ -619,6 +737,7 @@ def forall(lo, hi, body, base='k'):
                 acc.append(b)
         return AND(*acc)
     k = ivar(E.fresh(base))
+    note_range(SInt(k), lo, hi)
     old = E.sink
     conds = []
     E.sink = lambda c, w: conds.append(c)
@@ -651,7 +770,10 @@ def val_eq(a, b):
     if is_intlike(a) and is_intlike(b):
         if isinstance(a, int) and isinstance(b, int):
             return a == b
-        return SBool(toint(a) == toint(b))
+        ta, tb = toint(a), toint(b)
+        if ta.eq(tb):
+            return True
+        return SBool(ta == tb)
     if isinstance(a, (SBool, bool)) or isinstance(b, (SBool, bool)):
         return SBool(toint(a) == toint(b))
     raise SymErr('val_eq on %r / %r' % (a, b))
@@ -662,9 +784,79 @@ def seq_eq(a, b):
     if isinstance(a.n, int) and isinstance(b.n, int):
         if a.n != b.n:
             return False
-        if a.n <= 16:
+        if a.n <= 32:
             return AND(*[val_eq(a.get(i), b.get(i)) for i in range(a.n)])
     return AND(val_eq(a.n, b.n), forall(0, a.n, lambda k: val_eq(a.get(k), b.get(k)), 'i'))
+
+
+def note_range(v, lo, hi_excl):
+    """Record lo <= v < hi_excl for the interval analysis; v must only be used under that assumption."""
+    if E.mode != 'bv' or not isinstance(v, SInt):
+        return
+    l = lo if isinstance(lo, int) else bounds(toint(lo))[0]
+    h = (hi_excl if isinstance(hi_excl, int) else bounds(toint(hi_excl))[1]) - 1
+    if h >= l:
+        E.var_bounds[v.t.get_id()] = (l, h)
+
+
+def split_eq(a, b, chunk=24, _depth=0, cases=None):
+    """Equality of two values as a LIST of (suffix, clause) -- the conjunction is val_eq(a, b), but split so that
+    each clause is a small query: symbolic-length sequences give a length clause and element clauses at a fresh
+    (universally quantified) index constant; long concrete-length sequences are compared in chunks."""
+    seqish = (SSeq, bytes, bytearray, str, list)
+    if not (isinstance(a, seqish) and isinstance(b, seqish)) or _depth > 2:
+        return [('', val_eq(a, b))]
+    a, b = SSeq.of(a), SSeq.of(b)
+    if a.parts is None and b.parts is not None:
+        a, b = b, a
+    if a.parts is not None and not (isinstance(a.n, int) and a.n <= chunk):
+        # a == left ++ right: compare each part with the corresponding window of b (plus the lengths)
+        left, right = a.parts
+        ln = left.n
+        bg = b.get
+        out = [('.len', val_eq(a.n, b.n))]
+        out += [('<' + sfx, cl) for sfx, cl in split_eq(left, SSeq(left.n, bg, b.kind), chunk, _depth)]
+        out += [('>' + sfx, cl) for sfx, cl in split_eq(right, SSeq(right.n, lambda j: bg(ln + j), b.kind), chunk, _depth)]
+        return [(sfx, cl) for sfx, cl in out if cl is not True]
+    if isinstance(a.n, int) and isinstance(b.n, int) and (a.n != b.n or a.n <= 512):
+        if a.n != b.n:
+            return [('.len', False)]
+        if 0 < a.n <= 4 and isinstance(a.get(0), seqish) and _depth <= 2:
+            out = []
+            for idx in range(a.n):
+                out += [('[%d]%s' % (idx, sfx), cl) for sfx, cl in split_eq(a.get(idx), b.get(idx), chunk, _depth + 1)]
+            return out
+        if a.n <= chunk:
+            return [('', val_eq(a, b))]
+        out = []
+        for lo in range(0, a.n, chunk):
+            hi = min(a.n, lo + chunk)
+            out.append(('[%d:%d]' % (lo, hi), AND(*[val_eq(a.get(i), b.get(i)) for i in range(lo, hi)])))
+        return out
+    i = fresh_int('sk')
+    rng = AND(i >= 0, i < a.n)
+    note_range(i, 0, a.n)
+    out = [('.len', val_eq(a.n, b.n))]
+    if cases is not None:
+        # proof hint: compare at the given index TERMS one by one, and at an arbitrary index under rest(i);
+        # that the terms and rest(i) together cover the whole range is an obligation of its own (sound).
+        points, rest = cases(i)
+        out.append(('.cases-cover', implies(rng, OR(rest, *[i == p for p in points]))))
+        for n, p in enumerate(points):
+            prng = AND(p >= 0, p < a.n)
+            with guarded(prng):
+                for suf, cl in split_eq(a.get(p), b.get(p), chunk, _depth + 1):
+                    out.append(('[case%d]%s' % (n, suf), implies(prng, cl)))
+        rng = AND(rng, rest)
+        with guarded(rng):
+            for suf, cl in split_eq(a.get(i), b.get(i), chunk, _depth + 1):
+                out.append(('[rest]' + suf, implies(rng, cl)))
+        return out
+    with guarded(rng):
+        ea, eb = a.get(i), b.get(i)
+        for suf, cl in split_eq(ea, eb, chunk, _depth + 1):
+            out.append(('[i]' + suf, implies(rng, cl)))
+    return out
 
 
 def byte_seq(name, n=None, kind='bytes'):
